@@ -195,13 +195,15 @@ Inductive top :=
 | TCommit (id : N)
 | TIsElected (id : N)
 | TRemove (id : N)
-| TReady (id : N).   (* ConnectionReady: is a ready event published? *)
+| TReady (id : N)    (* ConnectionReady: is a ready event published? *)
+| TCommitH (id : N). (* the ConnectionAuthenticated handler: (authenticated event published?, sessions stopped) *)
 
 Inductive tout :=
 | OUnit
 | ONum (n : N)
 | OBool (b : bool)
-| OCommit (r : option (bool * list N)).
+| OCommit (r : option (bool * list N))
+| OCommitH (published : bool) (stopped : list N).
 
 Definition tstep (t : table) (o : top) : table * tout :=
   match o with
@@ -213,6 +215,12 @@ Definition tstep (t : table) (o : top) : table * tout :=
   | TIsElected id => (t, OBool (is_elected t id))
   | TRemove id => (remove_session t id, OUnit)
   | TReady id => (t, OBool (is_elected t id))
+  | TCommitH id =>
+    let '(t', r) := commit_authenticated t id in
+    match r with
+    | None => (t', OCommitH false [])
+    | Some (surv, losers) => (t', OCommitH surv losers)
+    end
   end.
 
 Fixpoint trun (t : table) (ops : list top) : table * list tout :=
